@@ -29,16 +29,11 @@ import (
 	itoml "github.com/influxdata/influxdb/toml"
 	"github.com/influxdata/influxql"
 	"go.uber.org/zap"
+	"verifkit"
 )
 
-func vkFreeAddr() string {
-	l, err := net.Listen("tcp", "127.0.0.1:0")
-	if err != nil {
-		panic(err)
-	}
-	defer l.Close()
-	return l.Addr().String()
-}
+// vkFreeAddr: a loopback address no other listener of this process has been given (verifkit.FreeAddr).
+func vkFreeAddr() string { return verifkit.FreeAddr() }
 
 // ---- fault proxy ---------------------------------------------------------------------
 
